@@ -30,6 +30,88 @@ def nul_cut_only(got, exp, src):
     return hit
 
 
+def value_class_parameters(v, rng, base, n_rounds):
+    """Handlers whose parameters are value classes (QFont): a parameter is the handler's own copy, it may be modified and
+    copied; the effects (console items, one property write) are computed here from the emitted argument values."""
+    from .. import doccheck
+    n_traces = 0
+    for k in range(n_rounds):
+        c1, c2 = rng.randint(1, 90), rng.randint(1, 90)
+        qml = ("import qmluic.QtWidgets\nQWidget {\n    id: root\n    VfWidget { id: t0 }\n"
+               "    VfWidget {\n        id: s0\n        onFonted: function(f: QFont) { f.pointSize = %d; f.bold = !f.bold; console.log(f.pointSize, f.bold) }\n    }\n"
+               "    VfWidget {\n        id: s1\n        onFonted: function(f: QFont) { let g = f; g.pointSize = %d; console.log(f.pointSize, g.pointSize) }\n    }\n"
+               "    VfWidget {\n        id: s2\n        onFonted2: function(n: int, f: QFont) { f.pointSize = n + f.pointSize; t0.ival = f.pointSize; console.info(f.italic) }\n    }\n"
+               "    VfWidget {\n        id: s3\n        onFonted: (f: QFont) => { f = t0.font; console.warn(f.pointSize) }\n    }\n"
+               "}\n" % (c1, c2))
+        out = common.translate([{"id": "g%d" % k, "source": qml, "modes": ["generate"], "want": ["ui", "header"]}], tag="c13g")
+        rs = out.results.get("g%d" % k)
+        rp = {"qml": qml}
+        if not rs:
+            v.inconc("no translation result (value-class parameters)")
+            continue
+        r = rs[0]
+        if r.get("panic"):
+            v.violation("panic", "translation panicked: %s" % r["panic"], rp)
+            continue
+        if not doccheck.accepted(r):
+            v.violation("valid-handler-rejected", "handlers with value-class parameters rejected: %r" % [x["message"] for x in r.get("diagnostics", [])][:2], rp)
+            continue
+        emissions = []
+        L = ["#include \"qtmodel.h\"", "#include \"ui_mytype.h\"", "#include \"uisupport_mytype.h\"", "int main() {", "    QWidget root;", "    Ui::MyType ui;",
+             "    ui.setupUi(&root);", "    UiSupport::MyType sup(&root, &ui);", "    qvm::tag() = \"setup\";", "    sup.setup();",
+             "    QFont t0f; t0f.setPointSize(33); qvm::quiet() = true; ui.t0->setFont(t0f); qvm::quiet() = false;"]
+        for e in range(4):
+            ps, bold, ital, n = rng.randint(1, 60), rng.random() < 0.5, rng.random() < 0.5, rng.randint(-5, 40)
+            L.append("    { QFont f; f.setPointSize(%d); f.setBold(%s); f.setItalic(%s);" % (ps, str(bold).lower(), str(ital).lower()))
+            for sender, call, exp in (
+                    ("s0", "fonted(f)", [("log", "debug", ((ge.INT, c1), (ge.BOOL, not bold)))]),
+                    ("s1", "fonted(f)", [("log", "debug", ((ge.INT, ps), (ge.INT, c2)))]),
+                    ("s2", "fonted2(%d, f)" % n, [("write", "t0", "ival", (ge.INT, n + ps)), ("log", "info", ((ge.BOOL, ital),))]),
+                    ("s3", "fonted(f)", [("log", "warning", ((ge.INT, 33),))])):
+                tag = "e%d.%s" % (e, sender)
+                L.append("      qvm::tag() = \"%s\"; qvm::put(\"\\\"ev\\\":\\\"begin\\\"\"); ui.%s->%s; qvm::put(\"\\\"ev\\\":\\\"end\\\"\");" % (tag, sender, call))
+                want = []
+                for x in exp:
+                    if x[0] == "log":
+                        want.append(("log", x[1], tuple(cxxrun.encode_expected(t, val) for t, val in x[2])))
+                    else:
+                        want.append(("write", x[1], x[2], cxxrun.encode_expected(*x[3])))
+                emissions.append((tag, want))
+            L.append("    }")
+        L += ["    return 0;", "}"]
+        cd = os.path.join(base, "g%d" % k)
+        try:
+            cxxrun.write_case(cd, r["ui"], r["header"], "\n".join(L) + "\n")
+        except cxxmodel.UicError as e:
+            v.inconc("mini-uic: %s" % e)
+            continue
+        ok, err = cxxrun.compile_case(cd)
+        rp = {"qml": qml, "header": r["header"]}
+        if ok is None:
+            v.inconc("compiler timeout")
+            continue
+        if not ok:
+            v.violation("does-not-compile", "support header with value-class handler parameters does not compile: %s" % err[-500:], dict(rp, compiler=err[-3000:]))
+            continue
+        status, events, serr = cxxrun.run_case(cd)
+        if status != 0:
+            v.violation("abnormal-exit-%s" % status, "driver for value-class handler parameters ended with %r: %s" % (status, serr[-300:]), rp)
+            continue
+        by_tag = {}
+        for e in events:
+            if e.get("ev") in ("begin", "end"):
+                by_tag.setdefault(e.get("tag"), [])
+            elif e.get("tag") in by_tag:
+                by_tag[e["tag"]].append(e)
+        for tag, want in emissions:
+            got = [x for x in cbdoc.observed_trace(by_tag.get(tag, [])) if not (x[0] == "write" and x[2] == "font")]
+            n_traces += 1
+            if got != want:
+                v.violation("trace:value-class-parameter", "emission %s: effects %r, source prescribes %r" % (tag, got, want), dict(rp, tag=tag))
+                break
+    return n_traces
+
+
 def run(tier, seed, replay=None):
     v = common.Verdict("C13", tier, seed)
     rng = common.rng_for(seed, "C13", tier)
@@ -192,6 +274,7 @@ def run(tier, seed, replay=None):
                         {"qml": neg_jobs[k]["source"], "handler": text})
         else:
             n_neg += 1
+    n_vc = 0 if replay else value_class_parameters(v, rng, base, 2 if tier == "quick" else 12)
     feats = sorted(set().union(*[d.features for d in docs])) if docs else []
     v.assumptions = ["reference interpreter in statement mode (qv/gen_expr.py) gives the prescribed effect trace",
                      "API model: direct connections; every setter/slot/console call appends to one event log",
@@ -201,7 +284,7 @@ def run(tier, seed, replay=None):
         rule="handlers in every form (expression, block, function, arrow; 0..n leading parameters) on Qt and synthetic signals "
              "(default-argument families, up to 3 arguments, inherited signals); bodies are random void programs; each defined "
              "(state, arguments) tuple is emitted and its effect trace compared; distinct = distinct handler text with >= 1 effect",
-        samples=samples, documents=len(work), handlers=sum(len(w[1].handlers) for w in work), traces_compared=n_traces,
+        samples=samples, documents=len(work), handlers=sum(len(w[1].handlers) for w in work), traces_compared=n_traces, value_class_parameter_traces=n_vc,
         effect_events_compared=n_events, connections_checked=n_connect_checked, undefined_runs_skipped=n_undefined,
         handlers_rejected_by_qmluic=len(rejected), rejection_reasons=rej_msgs, bad_handlers_rejected=n_neg,
         shape_features_hit=len(feats), shape_features=feats, floor=50,
